@@ -149,6 +149,9 @@ def run_case(case: dict[str, Any]) -> dict[str, Any]:
 
     ops = case["ops"]
     set_values(case.get("values") or DEFAULT_VALUES)
+    # a slow proxy / a peripheral going out of range: seconds, not milliseconds, between the request and what decides it (operation timeout raised
+    # accordingly); the judge reads the same module value
+    globals()["TIMEOUT"] = float(case.get("timeout", 1.0))
     with Sim() as sim:
         cfg = DeviceConfig()
         for n in ("BluetoothDeviceRequest", "BluetoothGATTGetServicesRequest", "BluetoothGATTReadRequest", "BluetoothGATTReadDescriptorRequest",
@@ -218,11 +221,18 @@ def run_case(case: dict[str, Any]) -> dict[str, Any]:
         for g in groups:
             dconn.outbox = []
             for item in case["replies"][k:k + g]:
-                dconn.send_msg(build_msg(pb, item, ops, k + 1))
+                m_ = build_msg(pb, item, ops, k + 1)
+                if case.get("newer_firmware"):
+                    # a proxy running newer firmware: its messages carry fields this client's api.proto does not declare (kept as unknown fields by
+                    # the protobuf runtime, so they are on the wire) - they match, complete and fail operations exactly like the plain ones
+                    m2_ = type(m_)()
+                    m2_.ParseFromString(m_.SerializeToString() + b"\xe0\x76\x2a" + b"\xea\x76\x03abc")
+                    m_ = m2_
+                dconn.send_msg(m_)
                 k += 1
             out_, dconn.outbox = dconn.outbox, None
             if out_:
-                dconn.deliver_items(out_, 0.01 * k)
+                dconn.deliver_items(out_, float(case.get("reply_gap", 0.01)) * k)
         cancels: dict[int, int] = {}
         for i, at in case.get("cancel", {}).items():
             def do_cancel(i: int = int(i)) -> None:
@@ -235,7 +245,7 @@ def run_case(case: dict[str, Any]) -> dict[str, Any]:
                 sim.net.at(t0 + 0.001 + at, lambda f=do_cancel: sim.loop.call_at(sim.loop.time(), f))
             else:
                 sim.at(t0 + 0.001 + at, do_cancel)
-        horizon = 31.0 if any(o["op"] == "get_services" for o in ops) else 2.0
+        horizon = 31.0 if any(o["op"] == "get_services" for o in ops) else 2.0 * TIMEOUT + 10.0 * float(case.get("reply_gap", 0.0)) * (len(case["replies"]) + 1)
         sim.run(until=lambda: all(r.done for r in recs), max_time=t0 + horizon + 0.5)
         sim.run_for(0.01)
         end_seq = sim.next_seq()
@@ -423,6 +433,11 @@ def gen_case(rng: Any) -> dict[str, Any]:
         else:
             replies.append(["T", i])
     case: dict[str, Any] = {"ops": ops, "replies": replies, "answer_disconnect": rng.random() < 0.5, "values": list(vals)}
+    if rng.random() < 0.15:
+        case["newer_firmware"] = True
+    if rng.random() < 0.12:
+        case["timeout"] = 12.0
+        case["reply_gap"] = rng.choice([1.4, 0.7, 3.0])
     if rng.random() < 0.2:
         case["cancel"] = {str(rng.randrange(nops)): rng.choice([0.0, 0.015, 0.035, 0.5])}
     if len(replies) >= 2 and rng.random() < 0.4:
